@@ -39,7 +39,7 @@ def required(tier):
         'classes': ['refused:differing-field-sets', 'refused:mixed-identification',
                     'naming:pattern', 'naming:list', 'assoc:yes', 'assoc:no', 'ids:yes',
                     'assoc-fields:vx_species:species-differ-per-part',
-                    'ids:no', 'inputs:1', 'inputs:6'],
+                    'ids:no', 'inputs:1', 'inputs:6', 'layout:inputs-in-separate-directories'],
         'counters': {'seam_reads': 50, 'beyond_end_reads': 10, 'id_lookups': 50},
         'evaluations': 300,
     }
@@ -75,9 +75,12 @@ def one_merge(rng, workdir: Path, rec, k):
     id_pool = rng.sample(range(-500, 5000), 80)
     model, ids, seams, bases, assocs = [], {}, [], [], []
     max_nb = 1
-    for name in names:
-        base = d / f'{name}.nc'
-        assoc = d / f'x_{name}.nc'
+    spread = (not pattern) and rng.random() < 0.4     # every input in a directory of its own
+    for j_, name in enumerate(names):
+        dd = d / f'dir{j_}' if spread else d
+        dd.mkdir(exist_ok=True)
+        base = dd / f'{name}.nc'
+        assoc = dd / f'x_{name}.nc'
         kw = {}
         if with_assoc:
             kw['associated_files'] = [(assoc, [assoc_fs])]
@@ -103,7 +106,10 @@ def one_merge(rng, workdir: Path, rec, k):
     out = d / 'merged.aeic-store'
     case = {'assoc_fields': assoc_fs if with_assoc else None,
             'species_differ_per_part': per_part_species, 'inputs': names, 'sizes': [b - a for a, b in zip([0] + seams, seams)],
-            'pattern': pattern, 'ids': with_ids, 'assoc': with_assoc}
+            'pattern': pattern, 'ids': with_ids, 'assoc': with_assoc,
+            'inputs_in_separate_directories': spread}
+    if spread:
+        rec.cls('layout:inputs-in-separate-directories')
     try:
         if pattern:
             TrajectoryStore.merge(out, input_stores_pattern=str(d / 'part_{index}.nc'),
@@ -242,6 +248,87 @@ def refusals(rng, workdir: Path, rec, k):
         shutil.rmtree(d, ignore_errors=True)
 
 
+def name_clashes(rng, workdir: Path, rec, k):
+    """Inputs whose file names clash inside the merged directory (same base name in different
+    directories; an input called like the merged index).  Either outcome is acceptable -
+    a correct merged store, or a refusal that leaves every input in place and no output -
+    but never a merged store that lost or duplicated trajectories."""
+    import numpy as np
+
+    from AEIC.trajectories import TrajectoryStore
+    from vlib import trajgen
+    from vlib.storeops import Mismatch
+
+    nprng = np.random.default_rng(rng.getrandbits(32))
+    for kind in ('same-name-in-different-directories', 'input-named-like-the-merged-index'):
+        d = workdir / f'clash{rng.getrandbits(36):x}'
+        d.mkdir()
+        with_ids = rng.random() < 0.5
+        nin = rng.randint(2, 4)
+        clash = sorted(rng.sample(range(nin), 2)) if kind.startswith('same') else [rng.randrange(nin)]
+        paths, model = [], []
+        uid = k * 10000 + 7000
+        for j in range(nin):
+            sub = d / f'in{j}'
+            sub.mkdir()
+            if j in clash:
+                nm = 'shard.nc' if kind.startswith('same') else '_index.nc'
+            else:
+                nm = f'other{j}.nc'
+            p = sub / nm
+            with TrajectoryStore.create(base_file=p) as st:
+                for _ in range(rng.randint(1, 4)):
+                    uid += 1
+                    t = trajgen.make_base_traj(nprng, 3, uid, flight_id=uid if with_ids else None)
+                    st.add(t)
+                    model.append((p, trajgen.snapshot(t)))
+            paths.append(p)
+        out = d / 'out.aeic-store'
+        case = {'kind': kind, 'inputs': [str(p.relative_to(d)) for p in paths], 'ids': with_ids}
+        rec.ev()
+        try:
+            TrajectoryStore.merge(out, input_stores=paths)
+            refused = None
+        except Exception as e:  # noqa: BLE001
+            refused = e
+        if refused is None:
+            try:
+                with TrajectoryStore.open(base_file=out) as m:
+                    got = [trajgen.fingerprint(m[i]) for i in range(len(m))]
+                    looked = [m.get_flight(sn['flight_id']) is not None for _, sn in model] \
+                        if with_ids else []
+            except Exception as e:  # noqa: BLE001
+                raise Mismatch('merge of inputs with clashing file names produced an unreadable '
+                               'store', {'error': f'{type(e).__name__}: {str(e)[:200]}', **case})
+            exp = [trajgen.fingerprint(sn) for _, sn in model]
+            if got != exp or not all(looked):
+                raise Mismatch('merge of inputs with clashing file names lost or duplicated '
+                               'trajectories', {'got': got, 'expected': exp, **case})
+            rec.cls(f'name-clash:{kind}:merged-correctly')
+        else:
+            if not isinstance(refused, ValueError):
+                raise Mismatch('merge of inputs with clashing file names failed with an '
+                               'unrelated error', {'error': f'{type(refused).__name__}: '
+                                                            f'{str(refused)[:200]}', **case})
+            problems = []
+            if out.exists():
+                problems.append('output directory left behind')
+            for p in paths:
+                if not p.exists():
+                    problems.append(f'input {p.relative_to(d)} is gone')
+            if not problems:
+                for p in paths:
+                    with TrajectoryStore.open(base_file=p) as st:
+                        exp = [trajgen.fingerprint(sn) for q, sn in model if q == p]
+                        if [trajgen.fingerprint(st[i]) for i in range(len(st))] != exp:
+                            problems.append(f'input {p.relative_to(d)} changed')
+            if problems:
+                raise Mismatch('a merge refused for clashing file names did not leave '
+                               'everything as it was', {'problems': problems, **case})
+            rec.cls(f'name-clash:{kind}:refused-nothing-touched')
+        shutil.rmtree(d, ignore_errors=True)
+
+
 def many_parts(rng, workdir: Path, rec, nparts):
     """A merged base store plus a separately merged associated store with several hundred
     constituent files (thorough tier)."""
@@ -310,7 +397,8 @@ def run_shard(spec, rec):
             return
         ks = [spec['only']] if 'only' in spec else range(spec['n'])
         for k in ks:
-            for part, fn in (('merge', one_merge), ('refusals', refusals)):
+            for part, fn in (('merge', one_merge), ('refusals', refusals),
+                             ('name-clashes', name_clashes)):
                 rng = random.Random(f"{spec['seed']}-{k}-{part}")
                 try:
                     c = fn(rng, workdir, rec, k)
